@@ -1175,7 +1175,7 @@ class Engine:
         it2 = it
         if isinstance(it, ast.Call) and ast.unparse(it.func) == 'enumerate' and len(it.args) == 1:
             enum, it2 = True, it.args[0]
-        if isinstance(it2, ast.Call) and ast.unparse(it2.func) == 'zip' and not enum:
+        if isinstance(it2, ast.Call) and ast.unparse(it2.func) == 'zip' and not any(isinstance(a, ast.Starred) for a in it2.args):
             seqs = [self.ev(a, st) for a in it2.args]
             if all(isinstance(q, Ref) and isinstance(st.content(q), (SeqC, ArrC)) for q in seqs):
                 st.env[idx_name] = z3.IntVal(0)
@@ -1188,7 +1188,8 @@ class Engine:
 
                 def pre_body(s):
                     i = s.env[idx_name]
-                    self.assign(n.target, tuple(self.elem(s.content(q), i) for q in seqs), s)
+                    item = tuple(self.elem(s.content(q), i) for q in seqs)
+                    self.assign(n.target, (i, item) if enum else item, s)
                 test_fn = lambda s: s.env[idx_name] < zlen(s)  # noqa
                 return self.cut_for(n, st, spec, lid, idx_name, test_fn, pre_body, z3.IntVal(0), zlen)
         seqv = self.ev(it2, st)
@@ -2087,6 +2088,8 @@ class Engine:
             return Func(full) if (full in self.externals or full in self.c.calls) else Module(full)
         if isinstance(base, MaybeNone):
             return self.getattr(base.value, attr, st, node)
+        if isinstance(base, Opaque) and attr in getattr(self.c, 'value_attrs', {}):
+            return self.c.value_attrs[attr](self, st, base)       # attribute of an opaque value, described by the contract
         if isinstance(base, Ref) and isinstance(st.content(base), Arr2C):
             c2 = st.content(base)
             if attr == 'T':
@@ -2782,7 +2785,24 @@ def _slice(ex, st, args, kw, node):
     return Mark('slice', args[0], args[1])
 
 
-BUILTINS = {'slice': _slice, 'abs': _abs, 'max': _maxmin(True), 'min': _maxmin(False), 'len': _len, 'isinstance': _isinstance,
+def _getattr3(ex, st, args, kw, node):
+    """getattr(obj, '<literal name>', default): the attribute when the object declares it, else the default"""
+    if len(args) != 3 or not isinstance(args[1], str):
+        raise Unsupported('getattr without a literal name and a default')
+    obj, name, default = args
+    if obj is None or isinstance(obj, (bool, int, float, str)):
+        return default                      # None / numbers / strings have none of the attributes the code under contract asks for
+    if isinstance(obj, Obj):
+        path = st.canon(obj.path + '.' + name)
+        if st.has(path):
+            return st.load(path)
+        if st.schema_for(path) is None:
+            raise Unsupported('getattr(%s, %r, default): the contract does not say whether the attribute exists' % (obj.path, name))
+        return st.load(path)
+    raise Unsupported('getattr on %r' % (obj,))
+
+
+BUILTINS = {'getattr': _getattr3, 'slice': _slice, 'abs': _abs, 'max': _maxmin(True), 'min': _maxmin(False), 'len': _len, 'isinstance': _isinstance,
             'float': _float, 'int': _int, 'bool': _bool, 'round': _round, 'list': _list, 'dict': _dict, 'sum': _sum,
             'str': _str, 'OrderedDict': _dict}
 
